@@ -708,7 +708,33 @@ func errIffEmpty(fn *ssa.Function, d ssa.Value, empty *ssa.Global) (bool, string
 		if !ok || (b.Op != token.EQL && b.Op != token.NEQ) {
 			return
 		}
-		if (b.X == d && loadedGlobal(b.Y) == empty) || (b.Y == d && loadedGlobal(b.X) == empty) {
+		// the lookup result itself, or a re-read of the field it has just been stored into
+		isD := func(v ssa.Value) bool {
+			if v == d {
+				return true
+			}
+			f, base := loadedField(v)
+			vi, _ := v.(ssa.Instruction)
+			if f == nil || vi == nil {
+				return false
+			}
+			same := false
+			nstores := 0
+			eachInstr(fn, func(x ssa.Instruction) {
+				st, isSt := x.(*ssa.Store)
+				if !isSt {
+					return
+				}
+				if f2, b2 := storeField(st.Addr); f2 == f && b2 == base {
+					nstores++
+					if st.Val == d && instrDominates(st, vi) {
+						same = true
+					}
+				}
+			})
+			return same && nstores == 1
+		}
+		if (isD(b.X) && loadedGlobal(b.Y) == empty) || (isD(b.Y) && loadedGlobal(b.X) == empty) {
 			test = iff
 			if b.Op == token.NEQ {
 				eqSucc = 1
